@@ -47,7 +47,9 @@ type Ctx struct {
 	curCase  string
 	distinct map[string]struct{}
 	samples  int
-	viols    int
+	viols    int // violations whose key is not a listed known finding (what Violations() reports)
+	allViols int
+	known    func(key string) (string, bool)
 }
 
 // Thorough reports whether the thorough tier was requested.
@@ -142,8 +144,14 @@ func (c *Ctx) Sample(v any) {
 // / history (it is what known_findings.json matches against); witness is written to the replay file.
 func (c *Ctx) Violation(key, what string, witness any) {
 	c.mu.Lock()
-	c.viols++
-	n := c.viols
+	if c.known == nil {
+		c.known = KnownMatcher(os.Getenv("VERIF_KNOWN"), c.Prop)
+	}
+	if _, listed := c.known(key); !listed {
+		c.viols++
+	}
+	c.allViols++
+	n := c.allViols
 	cs := c.curCase
 	c.mu.Unlock()
 	if n > 200 { // keep logs bounded; the count is still reported
@@ -153,8 +161,16 @@ func (c *Ctx) Violation(key, what string, witness any) {
 	c.emit(Event{T: "viol", Name: key, Msg: what, Data: raw(map[string]any{"case": cs, "witness": witness})})
 }
 
-// Violations returns how many violations this worker has reported so far.
+// Violations returns how many violations this worker has reported so far (listed known findings included).
 func (c *Ctx) Violations() int {
+	c.mu.Lock()
+	defer c.mu.Unlock()
+	return c.allViols
+}
+
+// UnlistedViolations is Violations without the ones whose key is a listed known finding. Early-stop thresholds use
+// it: a frequent known finding must not cut the exploration short (thorough tier).
+func (c *Ctx) UnlistedViolations() int {
 	c.mu.Lock()
 	defer c.mu.Unlock()
 	return c.viols
